@@ -84,6 +84,8 @@ CASES = [
     ("s->Y,p3->Y+meta", _st("s", "X"), "store on a bound pid (rejected)"),
     ("s->Y,p3->Y+meta", _sm("s", "f1", "v2"), "store_metadata overwrite on bound pid"),
     ("s->Y,p3->Y+meta", {"op": "delete", "pid": "s"}, "delete one of two sharers with metadata"),
+    ("s->Y,p3->Y+meta", _tag("s", "Y"), "tag a bound pid to the cid it already has (rejected)"),
+    ("s->Y,p3->Y+meta", _st("s", "Y"), "store the same content again on a bound pid (rejected)"),
 ]
 
 PIDS = ["s", "p2", "p3"]
@@ -373,9 +375,21 @@ def run_fault(case, site, code, persistent):
             # undo the retry for the bystander comparison below
             a = case.abstract(case.rundir)
         if kind in ("store", "tag") and not case.ref_out.ok:
-            # the call is rejected even without fault: the earlier binding must be intact
-            if a.pid_refs.get(subject) != case.start_abs.pid_refs.get(subject):
-                probs.append(("earlier-binding-disturbed", {"before": case.start_abs.pid_refs.get(subject), "after": a.pid_refs.get(subject)}))
+            # the call is rejected even without fault. The statement allows two outcomes after the failure: the
+            # earlier binding is intact, or the pid is unbound and can be stored again at once
+            now = a.pid_refs.get(subject)
+            if now != case.start_abs.pid_refs.get(subject):
+                if now is not None:
+                    probs.append(("earlier-binding-replaced", {"before": case.start_abs.pid_refs.get(subject), "after": now}))
+                else:
+                    fresh = case.open(case.rundir)
+                    env2 = case.world("run", fresh)
+                    env2._paths = dict(case._paths)
+                    r, _e = env2.execute(_st(subject, case.call.get("content") or case.call["cid"][1]))
+                    if not r.ok:
+                        probs.append(("earlier-binding-lost-and-retry-refused", {"retry": r.brief(), "msg": r.msg}))
+                    else:
+                        probs.append(("note:earlier-binding-dropped-by-failed-call", {}))
         if kind == "smeta":
             fresh = case.open(case.rundir)
             f = case.call.get("fmt")
